@@ -20,6 +20,7 @@ def run(prog, chk):
     chk.decided += [
         "the skip-export stage is applied to the glyph set(s) before any other filter is constructed or run, in all four pre-processors (R13.1)",
         "both sibling filters decompose only references to skipped glyphs (include=skip set, decomposeNested=False), then delete every skipped glyph from every glyph set and report it (R13.2)",
+        "interpolatable decomposition first defines the composite at the locations of the transitive closure of the glyphs it inlines (R13.5)",
         "argument beats lib: every assignment of the compiler's skipExportGlyphs from a UFO / designspace lib is guarded by 'is None' (R13.3)",
         "kerning groups are intersected with the (filtered) glyph set and every recorded pair has each side either a known group or a glyph of the glyph set; GDEF classes are restricted to the ordered glyph set; writers take the glyph set from the compiler (R13.4)",
     ]
@@ -28,6 +29,7 @@ def run(prog, chk):
     r132(prog, chk)
     r133(prog, chk)
     r134(prog, chk)
+    r135(prog, chk, "R13.5")
 
 
 # ----------------------------------------------------------------------------- R13.1
@@ -167,6 +169,79 @@ def r132(prog, chk):
                detail="the set of decomposed glyphs is part of the result",
                message=f"{call.short} does not return the set produced by the base __call__ (decomposed glyphs unreported)")
     chk.minimum("R13.2", 6)
+
+
+# ----------------------------------------------------------------------------- R13.5 (shared with C09)
+def r135(prog, chk, rule):
+    """Interpolatable decomposition: before references are inlined the composite is
+    made present at every source location of every glyph that will be inlined -
+    transitively.  (a) each I-filter that decomposes calls
+    ensureCompositeDefinedAtComponentLocations first, with the same `include` as
+    the decomposition; (b) the location collector recurses on every path on which
+    it counts a base glyph's own locations (closure, not just direct references)."""
+    ix = prog.ix
+    BI = "ufo2ft.filters.base.BaseIFilter"
+    n = 0
+    for ci in ix.subclasses(BI, strict=True):
+        f = ci.methods.get("filter")
+        if f is None:
+            continue
+        dcs = [c for c in A.body_nodes(f.node) if isinstance(c, ast.Call) and prog.is_call_to(f, c, "ufo2ft.util.decomposeCompositeGlyph")]
+        if not dcs:
+            continue
+        cfg = prog.cfg(f)
+        ens = [c for c in calls_named(f, "ensureCompositeDefinedAtComponentLocations") if T(c.func.value) == "self"]
+        for d in dcs:
+            n += 1
+            inc = A.kwarg(d, "include")
+            ok = False
+            why = "no call"
+            for e in ens:
+                einc = A.arg_at(e, 1, "include")
+                same_inc = (inc is None and einc is None) or (inc is not None and einc is not None and T(inc) == T(einc))
+                narrowing = [k.arg for k in e.keywords if k.arg not in ("include",)] + [T(a) for a in e.args[2:]]
+                first_ok = e.args and T(e.args[0]) == f.params()[1]
+                dom = cfg.dominates(cfg.node_of(e), cfg.node_of(d))
+                if same_inc and not narrowing and first_ok and dom:
+                    ok = True
+                else:
+                    why = f"include agrees: {same_inc}; extra restricting arguments: {narrowing}; dominates the decomposition: {dom}"
+            chk.ob(rule, f"{f.short}|composite defined at the locations of everything that is inlined", ok, where(f, d),
+                   detail="ensureCompositeDefinedAtComponentLocations(name, include=<same set>) dominates decomposeCompositeGlyph" if ok else why,
+                   message=f"{f.short} inlines component references without first interpolating the composite at all the locations of the "
+                           f"inlined glyphs ({why}): masters become incompatible / the variable font renders the glyph differently")
+    col = ix.get_method(BI, "locationsFromComponentGlyphs", own=True)
+    cfg = prog.cfg(col)
+    direct = [c for c in calls_named(col, "glyphSourceLocations")]
+    rec = [c for c in calls_named(col, "locationsFromComponentGlyphs")]
+    need(direct and rec, f"cannot interpret {col.short}: direct / recursive location collection not found")
+    rec_nodes = {cfg.node_of(c) for c in rec}
+    for dcall in direct:
+        n += 1
+        dn = cfg.node_of(dcall)
+        arg = T(dcall.args[0]) if dcall.args else None
+        same_arg = all(T(r.args[0]) == arg for r in rec if r.args)
+        # from the direct add, every path to the loop header / exit passes a statement containing the recursion
+        loops = [a for a in ix.ancestors(dcall) if isinstance(a, ast.For)]
+        targets = [cfg.node_of(l) for l in loops[:1]] + [cfg.exit]
+        leak = cfg.exists_path(dn, targets, avoid=rec_nodes) if dn not in rec_nodes else False
+        # the include filter is handed on unchanged
+        passes_include = all(len(r.args) >= 2 and T(r.args[1]) == col.params()[2] or (A.kwarg(r, col.params()[2]) is not None and T(A.kwarg(r, col.params()[2])) == col.params()[2]) for r in rec)
+        chk.ob(rule, f"{col.short}|location closure is transitive", (not leak) and same_arg and passes_include, where(col, dcall),
+               detail="every path that counts a base glyph's own locations also recurses into that base glyph (with the same include set)",
+               message="locationsFromComponentGlyphs can stop at the direct references: a skipped / decomposed glyph nested inside another one "
+                       "contributes no locations although the decomposing pen still inlines it")
+    en = ix.get_method(BI, "ensureCompositeDefinedAtComponentLocations", own=True)
+    calls = calls_named(en, "locationsFromComponentGlyphs")
+    need(calls, f"cannot interpret {en.short}")
+    for c in calls:
+        n += 1
+        extra = [k.arg for k in c.keywords if k.arg not in (en.params()[2],)] + [T(a) for a in c.args[2:]]
+        ok = len(c.args) >= 1 and T(c.args[0]) == en.params()[1] and not extra and \
+            (T(A.arg_at(c, 1, en.params()[2])) == en.params()[2] if A.arg_at(c, 1, en.params()[2]) is not None else False)
+        chk.ob(rule, f"{en.short}|uses the full closure", ok, where(en, c), detail="needLocations = locationsFromComponentGlyphs(name, include)",
+               message="ensureCompositeDefinedAtComponentLocations narrows the set of locations it asks for")
+    chk.minimum(rule, 4)
 
 
 # ----------------------------------------------------------------------------- R13.3
@@ -407,6 +482,10 @@ MUTANTS = [
       "sorted((n for n in self.context.orderedGlyphSet if n in glyphNames))", "sorted(glyphNames)", rule="R13.4"),
     M("writers run without the compiler", "ufo2ft/featureCompiler.py", "FeatureCompiler.setupFeatures",
       "writer.write(self.ufo, featureFile, compiler=self)", "writer.write(self.ufo, featureFile)", rule="R13.4"),
+    M("interpolatable skip filter only collects locations of direct references (cf. seeded/C13a)", "ufo2ft/filters/base.py", "BaseIFilter.locationsFromComponentGlyphs",
+      "locations |= self.glyphSourceLocations(baseGlyph)", "locations |= self.glyphSourceLocations(baseGlyph)\nif include is not None:\n    continue", rule="R13.5"),
+    M("composite interpolated after the references were inlined", "ufo2ft/filters/skipExportGlyphs.py", "SkipExportGlyphsIFilter.filter",
+      "self.ensureCompositeDefinedAtComponentLocations(glyphName, include=self.options.skipExportGlyphs)", "pass", rule="R13.5"),
     # equivalents
     M("pair guard written as a single condition", "ufo2ft/featureWriters/kernFeatureWriter.py", "KernFeatureWriter.getKerningPairs",
       "if not firstIsClass and side1 not in glyphSet:\n    continue\nif not secondIsClass and side2 not in glyphSet:\n    continue",
